@@ -47,9 +47,10 @@ RULE = ("requests are drawn from VERIF_SEED: tables as in C09 (3..600 knots, fou
         "non-trivial when the model answers ok/err and is counted once per distinct (family, call kind, table-size "
         "class, sign class of the prefactor, span class of the limits)")
 CORR_ONLY = ["the interior of the 1% extrapolation zone is not sampled by the extremum oracle (a turning point of the edge cubic strictly "
-             "between the end knot and an extrapolated limit is not a candidate of Local_*; second-order, accepted by the integrator)",
-             "per-segment monotonicity of the Steffen cubic (needed for 'extrema are among end values and knots') is C01's "
-             "theorem; here it is a hypothesis of localExt_bounds and is sampled by the oracle"]
+             "between the end knot and an extrapolated limit is not a candidate of Local_*; second-order, accepted by the integrator); "
+             "the Lean statements for such limits (localExt_curve_zone, integ_bounds_zone) carry it as the explicit hypothesis MonoOn "
+             "(edge cubic monotone between the limit and the end knot); inside the domain localExt_curve / integ_bounds are proved "
+             "without hypotheses by composing C01's interp_monotone_on_segment and C09's locate theorems"]
 ASSUMPTIONS = ["std::min_element/std::max_element/std::min/std::max return an extremal element",
                "unit factors in the generated requests are powers of two (exact in double), so model and code see the same table"]
 TRUSTED = []
